@@ -122,6 +122,7 @@ func New(hydrunInterface hydraidego.Hydraidego) Hydrex {
 // For each domain (which can be any unique identifier, not limited to DNS):
 // - Keys not present in the new `items` map but existing in current storage will be deleted.
 // - New keys not yet present will be added to both the core data and their respective indexes.
+// - Keys already present whose value changed are rewritten (their creation time is kept).
 // - Unchanged keys will remain intact.
 //
 // Requirements:
@@ -180,7 +181,7 @@ func (h *hydrex) Save(ctx context.Context, indexName string, domain string, item
 
 	// iterating through the new items
 	for key, data := range items {
-		if _, ok := existingCoreData[key]; !ok {
+		if existing, ok := existingCoreData[key]; !ok {
 
 			// array for saving new items
 			itemsForSave = append(itemsForSave, &CoreData{
@@ -200,10 +201,20 @@ func (h *hydrex) Save(ctx context.Context, indexName string, domain string, item
 				},
 			})
 
+		} else if existing.Value != data.Value {
+
+			// the key is already stored and indexed, but its value changed: rewrite the core
+			// entry with the new value and its original creation time (the index is untouched)
+			itemsForSave = append(itemsForSave, &CoreData{
+				Key:       key,
+				Value:     data.Value,
+				CreatedAt: existing.CreatedAt,
+			})
+
 		}
 	}
 
-	// add new key to the core data
+	// add new and changed keys to the core data
 	if err := h.hydraidegoInterface.CatalogSaveMany(ctx, coreDataName, itemsForSave, nil); err != nil {
 		slog.Error("Error while saving core data", "error", err)
 	}
